@@ -599,6 +599,138 @@ fn c20(route: &str, source: &str, out: &str) -> i32 {
     }
 }
 
+// ------------------------------------------------------------------------------------------- C11
+/// `c11 <in.json> <out.jsonl>`: compile each program with fea_rs::Compiler (in-memory resolver) and apply the
+/// compiled GSUB/GPOS to the given strings with the independent interpreter in eval/otl.rs.
+fn c11(input: &str, output: &str) {
+    use vharness::eval::otl;
+    std::panic::set_hook(Box::new(|info| {
+        let loc = info.location().map(|l| format!("{}:{}", l.file().rsplit("/repo/").next().unwrap_or(l.file()), l.line())).unwrap_or_default();
+        LAST_PANIC.with(|p| *p.borrow_mut() = loc);
+    }));
+    let data: Value = serde_json::from_slice(&std::fs::read(input).unwrap()).unwrap();
+    let mut out = std::io::BufWriter::new(std::fs::File::create(output).unwrap());
+    for prog in data["programs"].as_array().unwrap() {
+        let id = prog["id"].clone();
+        let names: Vec<String> = prog["glyphs"].as_array().unwrap().iter().map(|g| g.as_str().unwrap().to_string()).collect();
+        let glyph_map = fea_rs::GlyphMap::new(names.iter().map(|n| GlyphName::new(n.as_str()))).unwrap();
+        let fea: Arc<str> = Arc::from(prog["fea"].as_str().unwrap());
+        let mut files = HashMap::new();
+        files.insert(PathBuf::from("root.fea"), fea);
+        let compiled = catch_unwind(AssertUnwindSafe(|| {
+            fea_rs::Compiler::<fea_rs::compile::NopFeatureProvider, fea_rs::compile::NopVariationInfo>::new("root.fea", &glyph_map)
+                .with_resolver(MemResolver(files))
+                .compile_binary()
+        }));
+        let bytes = match compiled {
+            Err(_) => {
+                writeln!(out, "{}", json!({"id": id, "ok": false, "panic": last_panic()})).unwrap();
+                continue;
+            }
+            Ok(Err(e)) => {
+                let msg = match &e {
+                    fea_rs::compile::error::CompilerError::ParseFail(d) | fea_rs::compile::error::CompilerError::ValidationFail(d) | fea_rs::compile::error::CompilerError::CompilationFail(d) => d.display().to_string(),
+                    other => other.to_string(),
+                };
+                writeln!(out, "{}", json!({"id": id, "ok": false, "error": msg.chars().take(600).collect::<String>()})).unwrap();
+                continue;
+            }
+            Ok(Ok(b)) => b,
+        };
+        let font = match write_fonts::read::FontRef::new(&bytes) {
+            Ok(f) => f,
+            Err(e) => {
+                writeln!(out, "{}", json!({"id": id, "ok": false, "decode": e.to_string()})).unwrap();
+                continue;
+            }
+        };
+        let shaper = match otl::shaper_for(&font, &[]) {
+            Ok(s) => s,
+            Err(e) => {
+                writeln!(out, "{}", json!({"id": id, "ok": false, "decode": e})).unwrap();
+                continue;
+            }
+        };
+        if std::env::var("C11_DEBUG").is_ok() {
+            for (t, l) in [("GSUB", &shaper.gsub), ("GPOS", &shaper.gpos)] {
+                if let Some(l) = l {
+                    eprintln!("{t} scripts {:?}", l.scripts);
+                    for (i, f) in l.features.iter().enumerate() {
+                        eprintln!("{t} feature {i} {f:?}");
+                    }
+                    for (i, lk) in l.lookups.iter().enumerate() {
+                        eprintln!("{t} lookup {i} {lk:?}");
+                    }
+                }
+            }
+            eprintln!("GDEF {:?}", shaper.gdef);
+        }
+        let gid: HashMap<&str, u16> = names.iter().enumerate().map(|(i, n)| (n.as_str(), i as u16)).collect();
+        let strings: Vec<Vec<u16>> = prog["strings"].as_array().unwrap().iter().map(|s| s.as_array().unwrap().iter().map(|g| gid[g.as_str().unwrap()]).collect()).collect();
+        // systems: the requested ones plus every one the font registers
+        let mut systems: Vec<(String, String)> = prog["systems"].as_array().unwrap().iter().map(|s| (s[0].as_str().unwrap().to_string(), s[1].as_str().unwrap().to_string())).collect();
+        let mut font_systems = vec![];
+        let mut tags: std::collections::BTreeSet<String> = Default::default();
+        for (tname, layout) in [("GSUB", &shaper.gsub), ("GPOS", &shaper.gpos)] {
+            if let Some(l) = layout {
+                for (s, langs) in &l.scripts {
+                    for lang in langs.keys() {
+                        font_systems.push(json!([tname, s, lang]));
+                        if !systems.contains(&(s.clone(), lang.clone())) {
+                            systems.push((s.clone(), lang.clone()));
+                        }
+                    }
+                }
+                for f in &l.features {
+                    tags.insert(f.tag.clone());
+                }
+            }
+        }
+        let mut results = serde_json::Map::new();
+        let mut modes: Vec<Option<String>> = vec![None];
+        modes.extend(tags.iter().map(|t| Some(t.clone())));
+        let alts = prog["alts"].as_u64().unwrap_or(1) as usize;
+        for (script, lang) in &systems {
+            for mode in &modes {
+                for alt in 1..=alts {
+                    let only_owned: Vec<&str> = mode.iter().map(|s| s.as_str()).collect();
+                    let only = mode.as_ref().map(|_| &only_owned[..]);
+                    let sh = otl::Shaper { alt_index: alt, ..clone_shaper(&shaper) };
+                    let gs = sh.gsub.as_ref().map(|l| sh.active_lookups(l, script, lang, only)).unwrap_or_default();
+                    let gp = sh.gpos.as_ref().map(|l| sh.active_lookups(l, script, lang, only)).unwrap_or_default();
+                    let mut res = vec![];
+                    for s in &strings {
+                        let mut buf = s.clone();
+                        sh.apply_gsub(&mut buf, &gs);
+                        let mut pos = vec![otl::Pos::default(); buf.len()];
+                        sh.apply_gpos(&mut buf, &mut pos, &gp);
+                        let g: Vec<&str> = buf.iter().map(|g| names.get(*g as usize).map(|s| s.as_str()).unwrap_or("?")).collect();
+                        let p: Vec<String> = pos.iter().map(|p| format!("{},{},{},{}", p.xp, p.yp, p.xa, p.ya)).collect();
+                        res.push(format!("{}|{}", g.join(" "), p.join(";")));
+                    }
+                    results.insert(format!("{script}/{lang}|{}|{alt}", mode.clone().unwrap_or_else(|| "*".into())), json!(res));
+                }
+            }
+        }
+        let n_lookups = json!([shaper.gsub.as_ref().map(|l| l.lookups.len()).unwrap_or(0), shaper.gpos.as_ref().map(|l| l.lookups.len()).unwrap_or(0)]);
+        writeln!(out, "{}", json!({"id": id, "ok": true, "font_systems": font_systems, "tags": tags, "results": results, "lookups": n_lookups, "unsupported": *shaper.unsupported.borrow()})).unwrap();
+    }
+    out.flush().unwrap();
+}
+
+fn clone_shaper(s: &vharness::eval::otl::Shaper) -> vharness::eval::otl::Shaper {
+    vharness::eval::otl::Shaper {
+        gsub: s.gsub.clone(),
+        gpos: s.gpos.clone(),
+        gdef: s.gdef.clone(),
+        ivs: None,
+        coords: vec![],
+        alt_index: 1,
+        fractional_seen: Default::default(),
+        unsupported: Default::default(),
+    }
+}
+
 fn main() {
     let args: Vec<String> = std::env::args().collect();
     let num = |i: usize, d: u64| args.get(i).and_then(|s| s.parse::<u64>().ok()).unwrap_or(d);
@@ -607,6 +739,7 @@ fn main() {
         "c16" => println!("{}", c16(num(2, 1), num(3, 1000) as usize)),
         "c20" => std::process::exit(c20(&args[2], &args[3], &args[4])),
         "c13" => c13(&args[2], &args[3], &args[4], num(5, 0) as usize),
+        "c11" => c11(&args[2], &args[3]),
         _ => {
             eprintln!("usage: vapi c07|c16 <seed> <n> | c13 <inputs.jsonl> <journal> <out.jsonl> [start]");
             std::process::exit(2);
